@@ -348,6 +348,33 @@ class EnumSpec:
             src = "macro_rules! decl_%s { (%s) => {\n%s\n} }\ndecl_%s!(%s);" % (self.name.lower(), ", ".join(pats), src, self.name.lower(), ", ".join(args))
         return src
 
+    def render_bare(self):
+        """The same enum without any strum derive or strum attribute: if THIS does not compile, the generator produced an
+        invalid enum (outside every property's domain) and a compile failure of the full unit is not strum's doing."""
+        import copy
+        b = copy.deepcopy(self)
+        b.derives = []
+        b.serialize_all = None
+        b.aci = False
+        b.prefix = None
+        b.use_phf = False
+        b.parse_err = None
+        b.const_into_str = False
+        b.crate_path = None
+        b.macro_params = []
+        b.extra_enum_attrs = [a for a in b.extra_enum_attrs if "strum" not in a]
+        for v in b.variants:
+            v.serialize, v.to_string = [], None
+            v.disabled = v.default = v.transparent = False
+            v.default_with = None
+            v.aci = None
+            v.message = v.detailed_message = None
+            v.props = []
+            v.extra_attrs = [a for a in v.extra_attrs if "strum" not in a]
+            for f in v.fields:
+                f.default_with = None
+        return b.render()
+
     # model helpers ---------------------------------------------------------------------------
     def enabled(self):
         return [i for i, v in enumerate(self.variants) if not v.disabled]
